@@ -1,7 +1,7 @@
 (* C01 — Mesh cells tile the region; index<->coordinate maps are mutually inverse.
    This file holds ONLY statements, each closed by [exact] of a lemma proved in proofs/,
    followed by Print Assumptions. *)
-From DF Require Import Prelude Constants_gen Region Mesh C01_axis C01_nd C01_lattice C01_tiling Check_C01 C01_sound C07_accept C01_bycell.
+From DF Require Import Prelude Constants_gen Region Mesh C01_axis C01_nd C01_lattice C01_tiling Check_C01 C01_sound C07_accept C01_bycell C01_bycell2.
 Open Scope Q_scope.
 
 (* centres are pmin + (i + 1/2) * cell, cell = edges / n *)
@@ -207,3 +207,20 @@ Theorem C01_by_cell_constructor_sound : forall (r : region) (c : list Q) (m : me
     Qabs ((nth a (pmax r) 0 - nth a (pmin r) 0) - inject_Z (nth a (n m) 0%Z) * nth a c 0) <= bycell_tol c.
 Proof. exact mesh_by_cell_sound. Qed.
 Print Assumptions C01_by_cell_constructor_sound.
+
+(* the by-cell constructor establishes wf_mesh (in particular: at least one cell per direction) as soon
+   as its tolerance (0.1 % of the smallest cell length) is smaller than every edge ... *)
+Theorem C01_by_cell_constructor_wf : forall (r : region) (c : list Q) (m : mesh),
+  wf_region r -> mesh_by_cell r c = OK m ->
+  (forall a, (a < ndim r)%nat -> bycell_tol c < nth a (pmax r) 0 - nth a (pmin r) 0) ->
+  wf_mesh m.
+Proof. exact mesh_by_cell_wf. Qed.
+Print Assumptions C01_by_cell_constructor_wf.
+(* ... and the guard is needed, in the model exactly as in the implementation (replayed: Region(p1=0, p2=1,
+   tolerance_factor=2000) with cell=1000 gives a mesh with n = [0]): with a tolerance factor of a thousand
+   or more the "cell exceeds the region" test passes by tolerance and a zero-cell mesh is returned.
+   tolerance_factor is outside C01's quantifier; recorded in DESIGN.md 9.6 as an observation. *)
+Theorem C01_by_cell_degenerate_witness :
+  exists r c m, wf_region r /\ mesh_by_cell r c = OK m /\ n m = [0%Z].
+Proof. exact by_cell_degenerate_witness. Qed.
+Print Assumptions C01_by_cell_degenerate_witness.
